@@ -24,6 +24,7 @@ import (
 	"github.com/smartcontractkit/chainlink-ccip/internal/libs/slicelib"
 	"github.com/smartcontractkit/chainlink-ccip/internal/plugincommon"
 	"github.com/smartcontractkit/chainlink-ccip/internal/plugincommon/discovery"
+	dt "github.com/smartcontractkit/chainlink-ccip/internal/plugincommon/discovery/discoverytypes"
 	"github.com/smartcontractkit/chainlink-ccip/internal/plugintypes"
 	"github.com/smartcontractkit/chainlink-ccip/internal/reader"
 	"github.com/smartcontractkit/chainlink-ccip/pkg/consts"
@@ -199,6 +200,16 @@ func (p *Plugin) ValidateObservation(
 
 	if err := validateMessageKeys(decodedObservation.Messages); err != nil {
 		return fmt.Errorf("validate message keys: %w", err)
+	}
+
+	if p.discovery != nil {
+		discoveryObs := plugincommon.AttributedObservation[dt.Observation]{
+			OracleID:    ao.Observer,
+			Observation: decodedObservation.Contracts,
+		}
+		if err := p.discovery.ValidateObservation(dt.Outcome{}, dt.Query{}, discoveryObs); err != nil {
+			return fmt.Errorf("validate discovery observation: %w", err)
+		}
 	}
 
 	return nil
